@@ -33,7 +33,7 @@ func (c *Ctx) fieldLeaves(owner *types.Named, f *types.Var) []heapRef {
 	walk = func(b string, t types.Type) {
 		switch classify(t) {
 		case TSlice:
-			for _, sfx := range []string{"$arr", "$off", "$len", "$cap"} {
+			for _, sfx := range []string{"$arr", "$len", "$cap"} {
 				out = append(out, heapRef{b + sfx, nestedArr(1, SInt)})
 			}
 		case TStruct:
